@@ -389,8 +389,40 @@ class Exec:
             out[k.arg] = k.value
         return out
 
+    def is_float_dtype(self, node):
+        return isinstance(node, ast.Name) and node.id == 'float' and 'float' not in self.env
+
+    def value_copy(self, e):
+        """np.array(x[, dtype=float]), np.asarray(x[, dtype=float]), np.copy(x), x.copy(),
+        x.astype(float): a value-preserving copy of an array / array element is the identity.
+        Returns the copied value, or None if e is not such a call."""
+        f = e.func
+        if not isinstance(f, ast.Attribute):
+            return None
+        if isinstance(f.value, ast.Name) and f.value.id == 'np' and f.attr in ('array', 'asarray', 'copy'):
+            kws = self.kw(e, ('dtype',) if f.attr != 'copy' else ())
+            if len(e.args) != 1 or ('dtype' in kws and not self.is_float_dtype(kws['dtype'])):
+                bad(e, 'np.%s arguments' % f.attr)
+            v = self.ev(e.args[0])
+        elif f.attr == 'copy' and not (isinstance(f.value, ast.Name) and f.value.id == 'np'):
+            if e.args or e.keywords:
+                bad(e, '.copy() arguments')
+            v = self.ev(f.value)
+        elif f.attr == 'astype':
+            if e.keywords or len(e.args) != 1 or not self.is_float_dtype(e.args[0]):
+                bad(e, '.astype() arguments')
+            v = self.ev(f.value)
+        else:
+            return None
+        if isinstance(v, Arr) or (isinstance(v, S) and self.env.get('__elementwise__')):
+            return v
+        bad(e, 'copy of a non-array value')
+
     def call(self, e):
         f = e.func
+        cp = self.value_copy(e)
+        if cp is not None:
+            return cp
         # ---- numpy functions
         if isinstance(f, ast.Attribute) and isinstance(f.value, ast.Name) and f.value.id == 'np':
             name = f.attr
